@@ -244,6 +244,9 @@ func genStruct(r *rand.Rand, g genCfg, depth int) *Node {
 	if nk > 3 {
 		nk = 3
 	}
+	if depth > 0 && r.Intn(100) < 6 {
+		nk = 0 // a struct schema without fields (what Pick()/Omit() can leave behind)
+	}
 	perm := r.Perm(len(keys))[:nk]
 	kids := []Kid{}
 	for _, i := range perm {
